@@ -92,11 +92,11 @@ func init() {
 		},
 		Rule: "sequential part: every op sequence over {Ack,Nack,Acked?,Nacked?} of length 0..8 (87381 sequences) on 5 message kinds " +
 			"(NewMessage, Copy of unsettled/acked/nacked, zero value), checked step by step against the 3-state model (exhaustive, counter seq_sequences); " +
-			"concurrent part: batches of 40 histories of 2..16 goroutines x 1..4 ops on one shared message with Gosched injection, each history checked " +
+			"concurrent part: batches of 40 histories of 2..16 goroutines x 1..4 ops on one shared message (NewMessage, Copy, zero value, zero value settled by one earlier call) with Gosched injection, each history checked " +
 			"with porcupine against the same model. A concurrent case is non-trivial when operations of different goroutines overlapped in logical time and " +
 			"both Ack and Nack were attempted; distinct = distinct (kind, observed history) hashes; a sequential case is non-trivial always, distinct per (kind, block).",
 		Assumptions: []string{
-			"zero-value messages: concurrent histories race Ack and Nack only and read Acked()/Nacked() after the join (reading the channel fields concurrently with the first Ack/Nack on a message built without the constructor is not promised)",
+			"zero-value messages: concurrent histories race Ack and Nack only and read Acked()/Nacked() after the join (reading the channel fields concurrently with the first Ack/Nack on a message built without the constructor is not promised); kind zero-settled settles such a message by one sequential call first and then races all four operations (nothing writes the channel fields after the first settlement, so the reads are race-free on the pinned tree)",
 			"no call blocks: decided by the quiescence detector, not by a time-out",
 		},
 		Run: c03Run,
@@ -214,7 +214,7 @@ var c03Model = porcupine.Model{
 
 func c03Conc(e *vlib.Env) vlib.Result {
 	res := vlib.Result{Class: "concurrent"}
-	kinds := []string{"new", "copy-unsettled", "zero", "new"}
+	kinds := []string{"new", "copy-unsettled", "zero", "new", "zero-settled"}
 	distinct := map[string]bool{}
 	overlapping := 0
 	var sample any
@@ -222,6 +222,16 @@ func c03Conc(e *vlib.Env) vlib.Result {
 	for h := 0; h < histories; h++ {
 		kind := kinds[e.R.Intn(len(kinds))]
 		m := c03Make(kind)
+		// zero-settled: a message built without the constructor is settled by one call first; after that call has
+		// returned, nothing writes the channel fields any more, so readers may run concurrently with further Ack/Nack calls
+		var pre []porcupine.Operation
+		if kind == "zero-settled" {
+			op := e.R.Intn(2)
+			call := vlib.Now()
+			out := c03Apply(m, op)
+			ret := vlib.Now()
+			pre = append(pre, porcupine.Operation{ClientId: 99, Input: c03In{op}, Call: int64(call), Output: out, Return: int64(ret)})
+		}
 		g := e.R.Range(2, 16)
 		type plan struct {
 			ops   []int
@@ -240,7 +250,7 @@ func c03Conc(e *vlib.Env) vlib.Result {
 			}
 		}
 		var mu sync.Mutex
-		var ops []porcupine.Operation
+		ops := append([]porcupine.Operation(nil), pre...)
 		var panics []string
 		start := make(chan struct{})
 		var wg sync.WaitGroup
